@@ -122,9 +122,11 @@ func (s *qSession) ask(line, actual string) bool {
 		exp = "driver-error " + err.Error()
 	}
 	if exp != actual {
+		// record the first disagreement, detach the model (its state has diverged) and go
+		// on with the monitor alone: it decides whether this is a violation of the property
 		s.out.mismatch = "quota correspondence: " + line
 		s.out.expected, s.out.actual = exp, actual
-		return false
+		s.drv = nil
 	}
 	return true
 }
@@ -367,7 +369,7 @@ func (s *qSession) conservation(after string) bool {
 			s.out.mismatch = "quota correspondence: probe after " + after
 			s.out.expected = exp
 			s.out.actual = fmt.Sprintf("files=%d bytes=%d(known=%v) open=%d total=%d", files, bytes, known, len(s.open), sum)
-			return false
+			s.drv = nil
 		}
 	}
 	return true
@@ -375,7 +377,7 @@ func (s *qSession) conservation(after string) bool {
 
 func (s *qSession) exec(line string) {
 	w := strings.Fields(line)
-	if len(w) == 0 || s.out.failed() {
+	if len(w) == 0 || s.out.halted() {
 		return
 	}
 	if w[0] != "init" && s.fp == nil {
@@ -425,9 +427,9 @@ func (s *qSession) exec(line string) {
 			return
 		}
 		called := s.base.calls > 0
-		if called && s.base.lastArg != fmt.Sprintf("NewFile %d", size) {
+		if called && s.base.lastArg != fmt.Sprintf("NewFile %d", size) && s.out.mismatch == "" {
 			s.out.mismatch = "quota: base pool called with " + s.base.lastArg + " for " + line
-			return
+			s.drv = nil
 		}
 		id := "-"
 		if err == nil {
@@ -544,7 +546,7 @@ func (s *qSession) exec(line string) {
 		shuffle(r, ids)
 		for _, id := range ids {
 			s.exec(fmt.Sprintf("close %d %s", id, b01(r.Chance(1, 3))))
-			if s.out.failed() {
+			if s.out.halted() {
 				return
 			}
 		}
@@ -587,7 +589,7 @@ func runQuota(lines []string, drv *hx.Driver) *outcome {
 	s := newQSession(drv)
 	for _, l := range lines {
 		s.exec(l)
-		if s.out.failed() {
+		if s.out.halted() {
 			break
 		}
 	}
@@ -637,7 +639,7 @@ func genQuota(r *hx.Rand, drv *hx.Driver, thorough bool) ([]string, *outcome) {
 	if thorough {
 		nops = 4 + r.Intn(60)
 	}
-	for i := 0; i < nops && !s.out.failed(); i++ {
+	for i := 0; i < nops && !s.out.halted(); i++ {
 		ids := s.ids()
 		pickID := func() int {
 			if len(ids) == 0 || r.Chance(1, 40) {
@@ -697,7 +699,7 @@ func genQuota(r *hx.Rand, drv *hx.Driver, thorough bool) ([]string, *outcome) {
 			do("drain %d", r.Intn(1<<30))
 		}
 	}
-	if !s.out.failed() {
+	if !s.out.halted() {
 		do("drain %d", r.Intn(1<<30))
 	}
 	return hist, s.out
